@@ -1048,7 +1048,13 @@ impl Machine {
             EntryOrDefault(r, p, k) => Out::Val(Some(dump(obj!(r, p).entry(k.as_str()).or_default()))),
             EntryAndModify(r, p, k, l) => {
                 let lv = l.value();
-                obj!(r, p).entry(k.as_str()).and_modify(|x| *x = lv.clone()).or_insert("vacant");
+                let o = obj!(r, p);
+                // Entry::key() names the member, occupied or vacant, whatever kind the value has
+                let named = may_panic!(o.entry(k.as_str()).key().to_string());
+                if named != *k {
+                    return Out::Text(format!("Entry::key() = {:?} for entry({:?})", named, k));
+                }
+                o.entry(k.as_str()).and_modify(|x| *x = lv.clone()).or_insert("vacant");
                 Out::Unit
             }
             EntryOccupiedInsert(r, p, k, l) => match obj!(r, p).entry(k.as_str()) {
